@@ -10,6 +10,10 @@ small index; `dead` models a callable whose last strong reference was dropped.  
 (`Ev.fn`): an ordinary scheduling call creates a fresh one (its id = the tag of that first event), `again` schedules a
 further event with the SAME callable object (a bound method scheduled again and again); `Sim.fns` is the table of
 callables the program still holds strongly; dropping a callable kills every pending event that shares it.
+A callable (or the step body) may *raise*: command `raise x` sets `Sim.raised`, which turns the rest of the program into a no-op
+and which `runUntil` / `runNext` find set after `exec`: they return at once (the exception propagates out of `event.execute()`,
+out of the run method, to the program, which catches it — `caught` — and goes on).  The raising event was popped (consumed), the
+clock is its time, everything still on the list stays there; for programs that do not raise all equations are as before.
 -/
 namespace Mesa.Devs
 
@@ -49,6 +53,11 @@ def popLive : List Ev → Option (Ev × List Ev)
 /-- the cancelled events `pop_event` throws away on its way to the first live one -/
 def skipped (l : List Ev) : List Ev := l.takeWhile (·.cancelled)
 
+/-- the exception kinds the harness lets a callable raise (`IndexError` is the one `run_until` itself catches around
+    `pop_event`) -/
+inductive Exc where | index | value | key
+deriving Repr, DecidableEq
+
 inductive Cmd where
   | schedAbs (t : Int) (prio : Nat) (act : Nat)
   | schedRel (d : Int) (prio : Nat) (act : Nat)
@@ -56,6 +65,7 @@ inductive Cmd where
   | cancel (tag : Nat)
   | drop (fn : Nat)       -- the program drops its last strong reference to the callable object `fn`
   | halt                  -- the program sets `model.running = False` (the simulators never look at it)
+  | raise (x : Exc)       -- the callable raises: the commands after it do not run, the run method does not return normally
 deriving Repr, DecidableEq
 
 inductive Kind where | abm | devs
@@ -93,10 +103,11 @@ structure Sim where
   prog : Nat → List Cmd          -- what each user callable does
   stepProg : List Cmd            -- what the user's step body does
   fns : List (Nat × Nat)         -- callables the program holds strongly: (callable id, program it runs)
+  raised : Option Exc            -- an exception raised by the executing callable, on its way to the caller of the run method
 
 def init (k : Kind) (prog : Nat → List Cmd) (stepProg : List Cmd) : Sim :=
   { kind := k, now := 0, pending := [], nextId := 0, nextTag := 0, steps := 0, log := [], gone := [],
-    prog := prog, stepProg := stepProg, fns := [] }
+    prog := prog, stepProg := stepProg, fns := [], raised := none }
 
 /-- `check_time_unit` -/
 def okUnit (k : Kind) (t : Int) : Bool :=
@@ -157,13 +168,20 @@ def dropFn (s : Sim) (k : Nat) : Sim :=
 
 /-- a command issued by the program; a rejected scheduling call is caught by the caller
     and leaves the simulator as it was -/
-def doCmd (s : Sim) : Cmd → Sim
+def doCmd1 (s : Sim) : Cmd → Sim
   | .schedAbs t p a => match schedAbs s t p a with | .ok s' => s' | .error _ => s
   | .schedRel d p a => match schedRel s d p a with | .ok s' => s' | .error _ => s
   | .again k d p => match again s k d p with | some (.ok s') => s' | _ => s
   | .cancel k => cancelTag s k
   | .drop k => dropFn s k
   | .halt => s
+  | .raise x => { s with raised := some x }
+
+/-- once the program has raised, the rest of it does not run -/
+def doCmd (s : Sim) (c : Cmd) : Sim := if s.raised.isSome then s else doCmd1 s c
+
+/-- the program catches the exception that came out of a run call, and goes on -/
+def caught (s : Sim) : Sim := { s with raised := none }
 
 /-- ABM simulator: keep `model.step` scheduled for the next tick; DEVS: nothing -/
 def rearm (s : Sim) : Sim :=
@@ -180,7 +198,8 @@ def exec (s : Sim) (e : Ev) : Sim :=
   else
     (s.prog e.act).foldl doCmd { s with log := s.log ++ [.user e.id e.tag s.now] }
 
-/-- `run_until` with explicit fuel (`none` = fuel exhausted, the program does not terminate) -/
+/-- `run_until` with explicit fuel (`none` = fuel exhausted, the program does not terminate).  An exception raised by the
+    executed event ends the run on the spot: clock at that event's time, the event consumed, nothing pushed back. -/
 def runUntil : Nat → Sim → Int → Option Sim
   | 0, _, _ => none
   | f+1, s, T =>
@@ -188,10 +207,13 @@ def runUntil : Nat → Sim → Int → Option Sim
     | none => some { s with now := T, pending := [], gone := s.gone ++ (skipped s.pending).map (·.id) }
     | some (e, rest) =>
       let g := s.gone ++ (skipped s.pending).map (·.id)
-      if e.time ≤ T then runUntil f (exec { s with now := e.time, pending := rest, gone := g } e) T
+      if e.time ≤ T then
+        let s' := exec { s with now := e.time, pending := rest, gone := g } e
+        if s'.raised.isSome then some s' else runUntil f s' T
       else some { s with now := T, pending := insert e rest, gone := g }
 
-/-- `run_next_event` (ABM: with the re-scheduling of the D6 repair, which is in `exec`) -/
+/-- `run_next_event` (ABM: with the re-scheduling of the D6 repair, which is in `exec`); an exception of the executed event
+    is left in `raised` for the caller -/
 def runNext (s : Sim) : Sim :=
   match popLive s.pending with
   | none => { s with pending := [], gone := s.gone ++ (skipped s.pending).map (·.id) }
